@@ -122,6 +122,8 @@ def all_units():
         units_c12x.register(add)
         import units_c06x
         units_c06x.register(add)
+        import units_c14y
+        units_c14y.register(add)
         # development aid: additional unit modules (comma separated) can be tried out before they are registered here
         import os, importlib
         for m in filter(None, os.environ.get('VERIF_EXTRA_UNITS', '').split(',')):
